@@ -193,10 +193,33 @@ pub enum Tamper {
     /// probe (no verdict): restore the previous metadata document of `a`
     /// while its generation object is still in the backend
     Rollback,
+    /// compound downgrade attempt on one key: strip a subset of the
+    /// authentication / pointer fields, optionally place a ciphertext where
+    /// legacy metadata points (`data/<key>`), optionally alter the size
+    Compound { key: String, strip: Vec<String>, legacy: Legacy, size: Option<u64> },
     /// probe (two objects changed): strip the document of `key` down to the
     /// legacy look and place its ciphertext where legacy metadata points
     /// (`data/<key>`)
     StripAndRelocate { key: String },
+}
+
+#[derive(Clone, Copy, Debug, PartialEq, Eq, Serialize, Deserialize)]
+pub enum Legacy {
+    Absent,
+    /// data/<key> = this key's ciphertext
+    Own,
+    /// data/<key> = another key's ciphertext
+    Other,
+}
+
+/// The fields whose absence makes a document look like pre-authentication
+/// legacy metadata.
+pub const LEGACY_LOOK: [&str; 4] = ["an", "at", "av", "g"];
+pub const COMPOUND_FIELDS: [&str; 5] = ["av", "an", "at", "g", "m"];
+
+/// The key another key's ciphertext / length is borrowed from.
+pub fn other_key(key: &str) -> &'static str {
+    if key == "a" { "a/b" } else { "a" }
 }
 
 pub const STRIP_ALL: [&str; 6] = ["an", "at", "av", "g", "m", "c"];
@@ -239,6 +262,27 @@ impl Tamper {
                     if from == "OLD" { "older-generation" } else { "other-key" }
                 ),
             },
+            Tamper::Compound { strip, legacy, size, .. } => format!(
+                "compound/{}/legacy-object-{}/size-{}",
+                if LEGACY_LOOK.iter().all(|f| strip.iter().any(|s| s == f)) {
+                    "legacy-look"
+                } else if strip.is_empty() {
+                    "nothing-stripped"
+                } else {
+                    "partial-strip"
+                },
+                match legacy {
+                    Legacy::Absent => "absent",
+                    Legacy::Own => "own-ciphertext",
+                    Legacy::Other => "other-keys-ciphertext",
+                },
+                match size {
+                    None => "unchanged",
+                    Some(0) => "zero",
+                    Some(n) if *n % CS == 0 => "chunk-boundary",
+                    Some(_) => "other-keys-length",
+                }
+            ),
             Tamper::Rollback => "probe-rollback".into(),
             Tamper::StripAndRelocate { .. } => "probe-strip-all+relocate-payload".into(),
         }
@@ -255,12 +299,22 @@ impl Tamper {
             Tamper::SwapObjects { a, b } => vec![a, b],
             Tamper::ReplaceObject { dst, .. } => vec![dst],
             Tamper::Rollback => return vec!["a".into()],
-            Tamper::StripAndRelocate { key } => return vec![key.clone()],
+            Tamper::StripAndRelocate { key } | Tamper::Compound { key, .. } => return vec![key.clone()],
         };
         let mut out: Vec<String> = paths.into_iter().map(|p| key_of(p)).collect();
         out.sort();
         out.dedup();
         out
+    }
+}
+
+/// True when the bytes decode as a CBOR map that has none of the fields
+/// `an`, `at`, `av`, `g` as keys: what the store accepts (default mode) as
+/// metadata written before authentication existed.
+pub fn looks_legacy(doc: &[u8]) -> bool {
+    match cbor2::from_slice::<Cbor>(doc) {
+        Ok(Cbor::Map(m)) => !m.iter().any(|(k, _)| matches!(k, Cbor::Text(t) if LEGACY_LOOK.contains(&t.as_str()))),
+        _ => false,
     }
 }
 
@@ -388,6 +442,7 @@ pub fn apply_tamper(sc: &Scenario, t: &Tamper) -> Option<Content> {
         Tamper::Cbor { path, edit } => Tamper::Cbor { path: real(&path)?, edit },
         Tamper::Rollback => Tamper::Rollback,
         Tamper::StripAndRelocate { key } => Tamper::StripAndRelocate { key },
+        c @ Tamper::Compound { .. } => c,
     };
     match t {
         Tamper::Flip { path, byte, bit } => {
@@ -445,6 +500,26 @@ pub fn apply_tamper(sc: &Scenario, t: &Tamper) -> Option<Content> {
         }
         Tamper::Rollback => {
             c.insert("meta/a".into(), sc.old_meta.clone());
+        }
+        Tamper::Compound { key, strip, legacy, size } => {
+            let mpath = format!("meta/{key}");
+            let mut doc = c.get(&mpath)?.clone();
+            if !strip.is_empty() {
+                doc = edit_doc(&doc, &CborEdit::Remove(strip.clone()), &|_| None)?;
+            }
+            if let Some(n) = size {
+                doc = edit_doc(&doc, &CborEdit::SetInt("s".into(), *n), &|_| None)?;
+            }
+            c.insert(mpath, doc);
+            let src = match legacy {
+                Legacy::Absent => None,
+                Legacy::Own => Some(key.as_str()),
+                Legacy::Other => Some(other_key(key)),
+            };
+            if let Some(src) = src {
+                let payload = c.get(sc.sym.get(&format!("gen/{src}/CUR"))?)?.clone();
+                c.insert(format!("data/{key}"), payload);
+            }
         }
         Tamper::StripAndRelocate { key } => {
             let mpath = format!("meta/{key}");
@@ -509,6 +584,34 @@ pub fn sites(sc: &Scenario, bits: &[u8]) -> Vec<Tamper> {
         for b in &metas {
             if a != b {
                 out.push(Tamper::ReplaceObject { dst: (*a).clone(), src: (*b).clone() });
+            }
+        }
+    }
+    // compound downgrade family: every subset of {av, an, at, g, m} stripped
+    // x legacy object {absent, own ciphertext, another key's} x size
+    // {unchanged, every chunk boundary <= len, the other key's length}
+    for (k, o) in &sc.original {
+        let len = o.plain.len() as u64;
+        let mut sizes: Vec<Option<u64>> = vec![None];
+        let mut b = 0;
+        while b <= len {
+            if b != len {
+                sizes.push(Some(b));
+            }
+            b += CS;
+        }
+        if let Some(other) = sc.original.get(other_key(k))
+            && other.plain.len() as u64 != len
+        {
+            sizes.push(Some(other.plain.len() as u64));
+        }
+        for mask in 0..(1u32 << COMPOUND_FIELDS.len()) {
+            let strip: Vec<String> =
+                COMPOUND_FIELDS.iter().enumerate().filter(|(i, _)| mask & (1 << i) != 0).map(|(_, f)| f.to_string()).collect();
+            for legacy in [Legacy::Absent, Legacy::Own, Legacy::Other] {
+                for size in &sizes {
+                    out.push(Tamper::Compound { key: k.clone(), strip: strip.clone(), legacy, size: *size });
+                }
             }
         }
     }
@@ -711,13 +814,13 @@ pub enum Verdict {
     /// failed (any error)
     Failed,
     /// answered with something that was never written: the violation
-    Wrong(String),
+    /// (field: bytes | size | key | e_tag | last_modified, text)
+    Wrong(&'static str, String),
 }
 
 #[derive(Default, Clone, Debug)]
 pub struct SoftStats {
-    /// listing / head answers whose e_tag or last_modified differ from the
-    /// original although sizes are right (not part of the verdict)
+    /// (unused since e_tag / last_modified joined the verdict)
     pub meta_field_deviations: u64,
     /// listing entries for keys of the scenario that were missing (skipped)
     pub listing_entries_skipped: u64,
@@ -732,13 +835,19 @@ fn check_entries(
     for e in entries {
         let loc = e.location.to_string();
         match sc.original.get(&loc) {
-            None => return Verdict::Wrong(format!("listing reports a key that was never written: {loc}")),
+            None => return Verdict::Wrong("key", format!("listing reports a key that was never written: {loc}")),
             Some(o) => {
                 if e.size != o.plain.len() as u64 {
-                    return Verdict::Wrong(format!("listing reports size {} for {loc}, written {}", e.size, o.plain.len()));
+                    return Verdict::Wrong("size", format!("listing reports size {} for {loc}, written {}", e.size, o.plain.len()));
                 }
-                if e.e_tag != o.e_tag || e.last_modified.timestamp_millis() != o.lm_ms {
-                    soft.meta_field_deviations += 1;
+                if e.e_tag != o.e_tag {
+                    return Verdict::Wrong("e_tag", format!("listing reports e_tag {:?} for {loc}, committed {:?}", e.e_tag, o.e_tag));
+                }
+                if e.last_modified.timestamp_millis() != o.lm_ms {
+                    return Verdict::Wrong(
+                        "last_modified",
+                        format!("listing reports last_modified {} for {loc}, committed {}", e.last_modified.timestamp_millis(), o.lm_ms),
+                    );
                 }
             }
         }
@@ -768,21 +877,29 @@ pub async fn do_read(sc: &Scenario, store: &dyn ObjectStore, rd: &Read, soft: &m
                 Ok(r) => r,
             };
             let size = res.meta.size;
+            let (got_tag, got_lm) = (res.meta.e_tag.clone(), res.meta.last_modified.timestamp_millis());
             let body = match res.bytes().await {
                 Err(_) => return Verdict::Failed,
                 Ok(b) => b,
             };
             if size != plain.len() as u64 {
-                return Verdict::Wrong(format!("get reports size {size}, written {}", plain.len()));
+                return Verdict::Wrong("size", format!("get reports size {size}, written {}", plain.len()));
+            }
+            let o = &sc.original[key];
+            if got_tag != o.e_tag {
+                return Verdict::Wrong("e_tag", format!("get reports e_tag {:?}, committed {:?}", got_tag, o.e_tag));
+            }
+            if got_lm != o.lm_ms {
+                return Verdict::Wrong("last_modified", format!("get reports last_modified {got_lm}, committed {}", o.lm_ms));
             }
             match expect_range(plain, range) {
                 Some(exp) if exp == body.as_ref() => Verdict::Original,
-                Some(exp) => Verdict::Wrong(format!(
+                Some(exp) => Verdict::Wrong("bytes", format!(
                     "get answered {} bytes that are not the written ones (expected {} bytes)",
                     body.len(),
                     exp.len()
                 )),
-                None => Verdict::Wrong(format!("get answered {} bytes for a range outside the object", body.len())),
+                None => Verdict::Wrong("bytes", format!("get answered {} bytes for a range outside the object", body.len())),
             }
         }
         Read::Ranges { key, rs } => {
@@ -792,13 +909,13 @@ pub async fn do_read(sc: &Scenario, store: &dyn ObjectStore, rd: &Read, soft: &m
                 Err(_) => Verdict::Failed,
                 Ok(v) => {
                     if v.len() != rs.len() {
-                        return Verdict::Wrong(format!("get_ranges answered {} bodies for {} ranges", v.len(), rs.len()));
+                        return Verdict::Wrong("bytes", format!("get_ranges answered {} bodies for {} ranges", v.len(), rs.len()));
                     }
                     for ((a, b), body) in rs.iter().zip(&v) {
                         match expect_range(plain, &Some(crate::battery::Rng::B(*a, *b))) {
                             Some(exp) if exp == body.as_ref() => {}
                             _ => {
-                                return Verdict::Wrong(format!(
+                                return Verdict::Wrong("bytes", format!(
                                     "get_ranges answered {} bytes for {a}..{b} that are not the written ones",
                                     body.len()
                                 ));
@@ -815,10 +932,16 @@ pub async fn do_read(sc: &Scenario, store: &dyn ObjectStore, rd: &Read, soft: &m
                 Err(_) => Verdict::Failed,
                 Ok(m) => {
                     if m.size != o.plain.len() as u64 {
-                        return Verdict::Wrong(format!("head reports size {}, written {}", m.size, o.plain.len()));
+                        return Verdict::Wrong("size", format!("head reports size {}, written {}", m.size, o.plain.len()));
                     }
-                    if m.e_tag != o.e_tag || m.last_modified.timestamp_millis() != o.lm_ms {
-                        soft.meta_field_deviations += 1;
+                    if m.e_tag != o.e_tag {
+                        return Verdict::Wrong("e_tag", format!("head reports e_tag {:?}, committed {:?}", m.e_tag, o.e_tag));
+                    }
+                    if m.last_modified.timestamp_millis() != o.lm_ms {
+                        return Verdict::Wrong(
+                            "last_modified",
+                            format!("head reports last_modified {}, committed {}", m.last_modified.timestamp_millis(), o.lm_ms),
+                        );
                     }
                     Verdict::Original
                 }
@@ -853,7 +976,7 @@ pub struct SiteOut {
     pub reads: u64,
     pub failed: u64,
     pub original: u64,
-    pub wrong: Vec<(Read, String)>,
+    pub wrong: Vec<(Read, &'static str, String)>,
     /// the reads that failed
     pub failed_reads: Vec<Read>,
     /// reads during which the store panicked (counted among the failed)
@@ -887,7 +1010,7 @@ pub fn check_content(sc: &Scenario, content: &Content, touched: &[String], stric
                 out.failed += 1;
                 out.failed_reads.push(rd.clone());
             }
-            Ok(Verdict::Wrong(why)) => out.wrong.push((rd.clone(), why)),
+            Ok(Verdict::Wrong(field, why)) => out.wrong.push((rd.clone(), field, why)),
             Err(_) => {
                 out.failed += 1;
                 out.panicked += 1;
